@@ -1017,7 +1017,7 @@ func valueStoresOutsideRefBranch(p *core.Prog) string {
 // Ref as `$ref` alone. Code that clears that Ref on a loaded document removes the stop.
 func c20PathRef(r *core.Report) {
 	p := r.Prog
-	r.RunRule("C20.pathref", "serialising a loaded document ends: (a) PathItem.MarshalYAML returns the bare reference when Ref is set, before it touches the operations (C03.refonly has the shape); (b) outside the decoders and the loader, the Ref of a PathItem is set to the empty string only under a condition that rules out a reference into the document's own paths (a value computed from strings.HasPrefix(ref, \"#/paths/\")): clearing such a reference turns a path item cycle through a callback into an endless serialisation (stack overflow, not recoverable)", 1, func() {
+	r.RunRule("C20.pathref", "serialising a loaded document ends: (a) PathItem.MarshalYAML returns the bare reference when Ref is set, before it touches the operations (C03.refonly has the shape); (b) outside the decoders and the loader, the Ref of a PathItem is set to the empty string only under a condition that rules out a reference into the document's own paths (a value computed from strings.HasPrefix(ref, \"#/paths/\") or, wider, strings.HasPrefix(ref, \"#/\")): clearing such a reference turns a path item cycle through a callback into an endless serialisation (stack overflow, not recoverable)", 1, func() {
 		pk := p.Pkg("openapi3")
 		info := pk.TypesInfo
 		piT := p.NamedType("openapi3", "PathItem")
@@ -1060,7 +1060,7 @@ func c20PathRef(r *core.Report) {
 							ast.Inspect(e, func(m ast.Node) bool {
 								if c, ok := m.(*ast.CallExpr); ok && len(c.Args) == 2 {
 									if f := core.CalleeOf(info, c); f != nil && f.Name() == "HasPrefix" {
-										if sv, isStr := core.ConstStr(info, c.Args[1]); isStr && sv == "#/paths/" && !a.Pos {
+										if sv, isStr := core.ConstStr(info, c.Args[1]); isStr && (sv == "#/paths/" || sv == "#/") && !a.Pos {
 											prefixTest = true
 										}
 									}
